@@ -136,7 +136,8 @@ pub fn run(cx: &mut Ctx) {
     examples(cx);
     // corpus regression inputs (programs with a witness file), shard 0; a file named
     // `*_succeeds.simf` must also run successfully with its witness
-    if cx.shard == 0 && cx.only_case.is_none() {
+    if cx.shard == 0 && cx.only_case.map_or(true, |c| c == CORPUS_CASE) {
+        cx.begin_case(CORPUS_CASE);
         for (name, text, wv) in corpus_with_witness() {
             for debug in [false, true] {
                 let Ok(built) = build(&text, &simfony::Arguments::default(), debug) else {
@@ -165,6 +166,9 @@ pub fn run(cx: &mut Ctx) {
                 cx.report.count("corpus_inputs", 1);
             }
         }
+    }
+    if cx.only_case == Some(CORPUS_CASE) {
+        return;
     }
     let n: u64 = if cx.thorough { 40_000 } else { 1_200 };
     for i in cx.cases(n) {
@@ -254,6 +258,25 @@ fn run_program(cx: &mut Ctx, text: &str, ws: &[(String, Ty)], rng: &mut Rng, fam
             if k == 2 && !debug && cx.report.samples.len() < 3 && family == "uninspected" {
                 cx.report.sample(json!({"program": text, "witness": wmap_json(&m, ws)}));
             }
+        }
+    }
+    // one parsed template instantiated three times (debug off, on, off): every instance must be
+    // as self-consistent as a freshly compiled one, and equal flags must give equal CMRs
+    if let Outcome::Ok(tpl) = new_template(text) {
+        for (round, debug) in [false, true, false].into_iter().enumerate() {
+            let Outcome::Ok(compiled) = instantiate(&tpl, &simfony::Arguments::default(), debug) else { continue };
+            let Outcome::Ok(info) = commit(&compiled) else { continue };
+            if info.cmr != cmrs[debug as usize] {
+                cx.report.violation(json!({"kind": "cmr", "what": format!("instantiation #{} of one template (debug = {debug}) commits to another CMR than a fresh compilation", round + 1),
+                    "program": text, "signature": format!("redeem:{family}:reinst:{:016x}", fnv64(text.as_bytes()))}));
+                break;
+            }
+            let built = Compiled { template: tpl.clone(), compiled, commit: info };
+            let m: WMap = ws.iter().map(|(n, t)| (n.clone(), random_val(t, rng))).collect();
+            let wv = witness_values(&to_sim_map(&m, ws));
+            let sig = format!("redeem:{family}:reinst:{:016x}", fnv64(text.as_bytes()));
+            judge_redeem(cx, text, &built, &wv, wmap_json(&m, ws), debug, &sig);
+            cx.report.count("template_reinstantiations", 1);
         }
     }
     cx.report.count(&format!("programs_{family}"), 1);
